@@ -32,6 +32,12 @@ class PoolPlan:
     virtual_time: float = 0.0
     maps: int = 0
     tasks: int = 0
+    # lockstep back-end (simkit/lockstep.py): tasks genuinely in flight together
+    lockstep: bool = False
+    timeout_tasks: tuple[int, ...] = ()  # tasks that exceed the map's timeout (only if the caller passed one)
+    kill_at_yield: int = -1  # whole-process death at this scheduler step
+    yields: int = 0
+    timed_out: list = field(default_factory=list)
 
 
 CURRENT: PoolPlan | None = None
@@ -94,6 +100,7 @@ class SimPool:
         self.plan = plan
         self.workers = max(1, int(max_workers if max_workers is not None else plan.workers))
         self._closed = False
+        self._active: list = []
         if initializer is not None:
             initializer(*initargs)
 
@@ -113,7 +120,9 @@ class SimPool:
         self._closed = True
 
     def join(self, timeout=None) -> None:  # noqa: ANN001, ARG002
-        return None
+        for ls in self._active:
+            ls.drain()
+        self._active = []
 
     @property
     def active(self) -> bool:
@@ -159,6 +168,14 @@ class SimPool:
             except Exception as e:  # noqa: BLE001
                 payloads.append(e)
         n = len(payloads)
+        if plan.lockstep:
+            from simkit.lockstep import LockstepResults
+
+            ls = LockstepResults(self, payloads, timeout, _process_expired)
+            self._active.append(ls)
+            plan.maps += 1
+            plan.tasks += n
+            return SimFuture(ls)
         order, worker_of, _ = self._simulate(n)
         outcomes: list = [None] * n
         for task in order:
